@@ -482,6 +482,14 @@ fn followups(cfg: &Rc<Cfg>, spec: &Spec, ex: &Explored, res: &mut ConfigResult) 
             res.viol.push((v, stage.clone(), f.events.clone()));
         }
         let interrupted = t.interrupted();
+        if on(spec.mon, 12) && !interrupted && ex2.terminals.is_empty() {
+            // "... and returns a history equal to the one it started from": it returns none at all
+            res.viol.push((
+                viol("C12", "reevaluation-does-not-finish", format!("re-evaluating the unchanged project does not end in a finished evaluation ({} paths ended in an engine error)", ex2.dead_paths)),
+                stage.clone(),
+                vec![],
+            ));
+        }
         let mut push = |p: &'static str, clause: &'static str, msg: String, tags: Vec<(&'static str, String)>, evs: &Vec<Ev>| {
             let mut v = viol(p, clause, msg);
             for (k, val) in tags {
